@@ -552,6 +552,9 @@ def render_xml(doc: Doc, style: str = "xtce", comments=None, whitespace: bool = 
                 out.append(f"<{tag}{attrs}/>")
             return
         out.append(f"<{tag}{attrs}>")
+        if extra_attrs and e.tag == "DefaultCalibrator":
+            # the schema lets a calibrator carry ancillary data in front of the calibration itself
+            out.append(f'<{pfx}AncillaryDataSet><{pfx}AncillaryData name="source">bench 3</{pfx}AncillaryData></{pfx}AncillaryDataSet>')
         if e.text is not None:
             out.append(spell_text(e.text))
         for k in e.children:
@@ -719,7 +722,9 @@ def build_objects(doc: Doc, style: str = "xtce"):
         entries = [params[n] if k == "p" else mk_container(n) for k, n in c.entries]
         sc = containers.SequenceContainer(name=c.name, entry_list=entries, short_description=c.short,
                                           long_description=c.long, base_container_name=c.base,
-                                          restriction_criteria=mk_crit(c.criteria or ()), abstract=c.abstract)
+                                          restriction_criteria=mk_crit(c.criteria or ()),
+                                          # the flag as a caller has it: a bool or a numpy bool (by the container's name)
+                                          abstract=(bool(c.abstract), __import__("numpy").bool_(bool(c.abstract)))[len(c.name) % 2])
         built[name] = sc
         return sc
 
